@@ -22,5 +22,6 @@ go test -count=1 -run "$RUN" "./$PKG/" 2>&1 | tail -3
 echo "== demo with the change"
 cp "$SD/demo_test.go" "$W/$PKG/zz_demo_test.go"
 go test -count=1 -run 'Demo|Seeded' "./$PKG/" 2>&1 | tail -4
+if [ -n "${NOCHECK:-}" ]; then exit 0; fi
 echo "== check against /repo with the change"
 git -C /repo apply "$SD/patch.diff" && (cd /verif && ./bin/govc check -prop "$PROP" -no-evidence 2>&1 | grep -E "^VIOLATION|BROKEN|obligations" | cut -c1-300); git -C /repo checkout -- . 
